@@ -82,6 +82,7 @@ func setInfo(m *traits.ElectricMode, k int64) {
 	m.Id, m.Title, m.Description, m.Voltage, m.Normal = "", "", "", 0, false
 	if k > 0 {
 		m.Id, m.Title, m.Description = fmt.Sprintf("id%d", k), fmt.Sprintf("t%d", k), fmt.Sprintf("d%d", k)
+		watchKeep(wa, m.Id, m.Title, m.Description)
 		m.Voltage, m.Normal = float32(k), k%2 == 1
 	}
 }
@@ -137,7 +138,7 @@ func addShapes(r *rand.Rand, s string) string {
 func applyShapes(g *guarded, sh []shp) {
 	for i, x := range sh {
 		if x.has {
-			g.full[i].Shape = &traits.ElectricMode_Segment_Fixed{Fixed: magVal(x.v)}
+			g.full[i].Shape = pbFixed(magVal(x.v))
 			g.clone[i] = proto.Clone(g.full[i]).(*traits.ElectricMode_Segment)
 		}
 	}
@@ -184,14 +185,16 @@ func (c scase) runShaped(o *outcome) {
 		l, sh := splitShaped(c.L)
 		g := guard(l)
 		applyShapes(g, sh)
-		o.segs = segmentpb.Shift(time.Duration(mustInt(c.D)), g.arg()...)
+		watched(wa, func() { o.segs = segmentpb.Shift(time.Duration(mustInt(c.D)), g.arg()...) })
 		o.text = showPBSegSs(o.segs)
 		o.mutated = g.changed()
 	case "sums":
 		var gs []*guarded
 		var args [][]*traits.ElectricMode_Segment
 		if c.L != "none" {
-			for _, x := range strings.Split(c.L, ";") {
+			parts := strings.Split(c.L, ";")
+			args = watchSlice[[]*traits.ElectricMode_Segment](wa, 0, len(parts), "slice of lists")
+			for _, x := range parts {
 				l, sh := splitShaped(x)
 				g := guard(l)
 				applyShapes(g, sh)
@@ -199,7 +202,7 @@ func (c scase) runShaped(o *outcome) {
 				args = append(args, g.arg())
 			}
 		}
-		o.segs = segmentpb.Sum(args...)
+		watched(wa, func() { o.segs = segmentpb.Sum(args...) })
 		o.text = showPBSegSs(o.segs)
 		for i, g := range gs {
 			if m := g.changed(); m != "" {
@@ -211,10 +214,10 @@ func (c scase) runShaped(o *outcome) {
 		x := mustInt(c.D)
 		g := guardModeS(parseMdS(c.L))
 		if c.Op == "mcuts" {
-			o.mBefore, o.mAfter, o.ok = modepb.Cut(at(x), g.mode)
+			watched(wa, func() { o.mBefore, o.mAfter, o.ok = modepb.Cut(at(x), g.mode) })
 			o.text = showPBModeS(o.mBefore) + "|" + showPBModeS(o.mAfter) + "|" + strconv.FormatBool(o.ok)
 		} else {
-			o.mode = modepb.Shift(time.Duration(x), g.mode)
+			watched(wa, func() { o.mode = modepb.Shift(time.Duration(x), g.mode) })
 			o.text = showPBModeS(o.mode)
 		}
 		o.mutated = g.changed()
@@ -222,14 +225,16 @@ func (c scase) runShaped(o *outcome) {
 		var gs []*guardedMode
 		var args []*traits.ElectricMode
 		if c.L != "none" {
-			for _, x := range strings.Split(c.L, ";") {
+			parts := strings.Split(c.L, ";")
+			args = watchSlice[*traits.ElectricMode](wa, 0, len(parts), "slice of modes")
+			for _, x := range parts {
 				g := guardModeS(parseMdS(x))
 				gs = append(gs, g)
 				args = append(args, g.mode)
 			}
 		}
 		keep := append([]*traits.ElectricMode{}, args...)
-		o.mode = modepb.Sum(args...)
+		watched(wa, func() { o.mode = modepb.Sum(args...) })
 		o.text = showPBModeS(o.mode)
 		for i, g := range gs {
 			if args[i] != keep[i] {
